@@ -44,6 +44,8 @@ K64 = 5000.0       # measured worst multiple on the unchanged tree: ~45 in both 
 def ladder(tier, rng):
     zs = [0.0] + [-(10.0 ** e) for e in range(-8, 16)] + [-0.5, -3.0, -30.0, -700.0, -1e4 / 3]
     zs += [s * 1j * 10.0 ** e for e in range(-3, 5) for s in (1, -1)]
+    # between the decades near the origin (where an implementation may switch between formulas for the coefficient functions)
+    zs += [-m * 10.0 ** e for e in range(-4, 1) for m in (2.0, 5.0, 9.0)] + [1j * m * 10.0 ** e for e in range(-4, 0) for m in (-3.0, 7.0)]
     n = 40 if tier == "quick" else 300
     r = 10 ** rng.uniform(-4, 15, n)
     th = rng.uniform(np.pi / 2, 3 * np.pi / 2, n)
@@ -66,13 +68,19 @@ def stiff_cases(tier):
             ("GeneralGradientNormStepper", 1, 256, 0.5, 10.0, dict(linear_coefficients=(0.0, 0.0, 1.0, 0.0, -1.0, 0.0, 0.01))),
             ("GrayScott", 2, 64, 1.0, 1.0, dict(diffusivity_1=1.0, diffusivity_2=0.5)),
             ("NavierStokesVelocity", 3, 16, 1.0, 100.0, dict(diffusivity=1.0)),
+            # difficulty interface on fine grids with high-order dissipation: the conversion factors N^j 2^(j-1) D reach 2^64 and beyond
+            ("DifficultyConvectionStepper", 1, 300, 1.0, 1.0, dict(linear_difficulties=(0.0, 0.0, 0.0, 0.0, -1.0, 0.0, 0.0, 0.0, -0.5))),
+            ("DifficultyGradientNormStepper", 1, 2048, 1.0, 1.0, dict(linear_difficulties=(0.0, 0.0, 0.0, 0.0, -1.0, 0.0, 0.5))),
         ):
             if tier == "quick" and order in (1, 3) and D > 1:
                 continue
             k += 1
             cs.append(dict(id=f"{name}-{D}d-N{N}-o{order}", name=name, D=D, N=N, L=L, dt=dt, order=order, kw=kw, seed=k))
     for name, D, N, L, dt, kw in (("Diffusion", 1, 512, 1.0, 10.0, dict(diffusivity=1.0)), ("HyperDiffusion", 1, 512, 1.0, 10.0, {}),
-                                  ("HyperDiffusion", 2, 64, 0.5, 1e3, {}), ("Diffusion", 3, 16, 0.1, 1e6, {})):
+                                  ("HyperDiffusion", 2, 64, 0.5, 1e3, {}), ("Diffusion", 3, 16, 0.1, 1e6, {}),
+                                  ("DifficultyLinearStepper", 1, 256, 1.0, 1.0, dict(linear_difficulties=(0.0, 0.0, 0.0, 0.0, -2.0, 0.0, 0.0, 0.0, -1.0))),
+                                  ("DifficultyLinearStepper", 1, 4096, 1.0, 1.0, dict(linear_difficulties=(0.0, 0.0, 0.0, 0.0, 0.0, 0.0, 0.5))),
+                                  ("DifficultyLinearStepper", 2, 236, 1.0, 1.0, dict(linear_difficulties=(0.0, 0.0, 0.1, 0.0, 0.0, 0.0, 0.0, 0.0, -1.0)))):
         k += 1
         cs.append(dict(id=f"{name}-{D}d-N{N}", name=name, D=D, N=N, L=L, dt=dt, order=None, kw=kw, seed=k))
     return cs
